@@ -214,7 +214,7 @@ def cases(size, seed, limit):
     # same functor name with two arities, and a Python string constant spelled like an atom: must never unify
     terms = mirror.enum_terms(size, funs=(('f', 1), ('g', 2), ('f', 2)), consts=(1, 'a'))
     # the Python constants None / 0 / '' / False are constants like any other (never a wildcard, never 'unbound')
-    odd = [('const', None), ('const', 0), ('const', ''), ('const', False), ('const', 1.0), ('const', True)]      # 1 == 1.0 == True in Python
+    odd = [('const', None), ('const', 0), ('const', ''), ('const', False), ('const', 1.0), ('const', True), ('const', '1'), ('const', '0')]      # 1 == 1.0 == True in Python; '1' and '0' print like 1 and 0 and are different constants
     small = mirror.enum_terms(min(size, 2))
     pres = [[]]
     for v in range(3):
